@@ -6,6 +6,7 @@ package main
 // of C13 rooted at every method declared on the selected struct types of package packet.
 
 import (
+	"strings"
 	"go/types"
 	"sort"
 
@@ -109,6 +110,9 @@ func packetValuesImmutable(c *Ctx, r *Report, rule, pkgRel string, fam map[*type
 		if seen[k] {
 			continue
 		}
+		if strings.HasPrefix(f.sig, "param-store:") && !storesThroughFamilyParam(f.fn, fam) {
+			continue // a helper object of the encoder (a cursor, a writer) is not the packet value
+		}
 		seen[k] = true
 		flagged[f.fn] = true
 		r.fail(rule, fnID(f.fn), "a method of a packet value changes the value it is called on: "+f.what, c.pos(f.pos), "", f.sig)
@@ -165,4 +169,19 @@ func responseFamily(c *Ctx, pkgRel string) map[*types.Named]bool {
 		// not an error type, not a header: it carries a function code of its own
 		return hasMethodNamed(c, tn, "FunctionCode")
 	})
+}
+
+// storesThroughFamilyParam: fn stores through a pointer parameter (or receiver) whose element type
+// is one of the packet types.
+func storesThroughFamilyParam(fn *ssa.Function, fam map[*types.Named]bool) bool {
+	for i, p := range fn.Params {
+		pt, ok := p.Type().Underlying().(*types.Pointer)
+		if !ok {
+			continue
+		}
+		if tn, ok := pt.Elem().(*types.Named); ok && fam[tn] && storesThroughParam(fn, i) {
+			return true
+		}
+	}
+	return false
 }
